@@ -415,6 +415,121 @@ func TestVerif_C24(t *testing.T) {
 		}
 	})
 
+	// ---------------- bearer: token SIZE ----------------
+	// Configured tokens of every length around the usual buffer / block
+	// boundaries; presented token = the configured one with exactly one byte
+	// changed at EVERY position, truncated, extended, and exact. A second
+	// configured token shares all but the last byte (identity must be that
+	// token's own). "Byte for byte" has no length limit.
+	lengths := []int{1, 2, 7, 8, 9, 15, 16, 17, 31, 32, 33, 47, 48, 63, 64, 65, 66, 95, 96, 100, 127, 128, 129, 130, 255, 256, 257, 300}
+	if venum.Thorough() {
+		lengths = append(lengths, 511, 512, 513, 1023, 1024, 1025, 2049, 4096, 4097)
+	}
+	mkToken := func(n int) []byte {
+		b := make([]byte, n)
+		for i := range b {
+			b[i] = "abcdefghijklmnopqrstuvwxyz0123456789-_."[(i*7+i/39)%39]
+		}
+		return b
+	}
+	lenClass := func(n int) string {
+		switch {
+		case n <= 16:
+			return "<=16"
+		case n <= 32:
+			return "17..32"
+		case n <= 64:
+			return "33..64"
+		case n <= 128:
+			return "65..128"
+		case n <= 256:
+			return "129..256"
+		default:
+			return ">256"
+		}
+	}
+	venum.Explore(t, venum.Cfg{Name: "bearer-token-size", Shardable: true}, func(x *venum.X) {
+		L := lengths[x.Choose(len(lengths), "token-length")]
+		tok := mkToken(L)
+		sibling := append([]byte{}, tok...)
+		sibling[L-1] ^= 0x01 // same length, differs only in the last byte
+		idTok := &AuthContext{Domain: "bearer", Authenticated: true, Principal: "owner"}
+		idSib := &AuthContext{Domain: "bearer", Authenticated: true, Principal: "sibling"}
+		ids := map[string]*AuthContext{string(tok): idTok}
+		twoTokens := x.Bool("sibling-token-configured")
+		if twoTokens {
+			ids[string(sibling)] = idSib
+		}
+		// The authenticator is built from a map; with two configured tokens an
+		// implementation that cannot tell them apart answers by map iteration
+		// order. Build it many times so such an answer shows up in (practically)
+		// every execution instead of every other one.
+		instances := 1
+		if twoTokens {
+			instances = 40
+		}
+		fns := make([]AuthenticateFunc, instances)
+		for i := range fns {
+			fns[i] = BearerAuthenticateStatic(ids)
+		}
+
+		var presented []byte
+		form := x.Pick("presented", "exact", "one-byte-changed", "truncated-by-1", "extended-by-1", "sibling", "doubled")
+		pos := -1
+		switch form {
+		case "exact":
+			presented = tok
+		case "one-byte-changed":
+			pos = x.Choose(L, "position")
+			presented = append([]byte{}, tok...)
+			presented[pos] ^= 0x02 // never collides with the sibling (bit 0x01 of the last byte)
+		case "truncated-by-1":
+			presented = tok[:L-1]
+		case "extended-by-1":
+			presented = append(append([]byte{}, tok...), 'x')
+		case "sibling":
+			presented = sibling
+		case "doubled":
+			presented = append(append([]byte{}, tok...), tok...)
+		}
+		hdr := "Bearer " + string(presented)
+		want := ids[string(presented)] // nil unless byte-for-byte one of the configured tokens
+		var got *AuthContext
+		var err error
+		for _, fn := range fns {
+			got, err = fn(vfC24Req("Authorization", hdr, true))
+			if (err == nil) != (want != nil) || (want != nil && got != want) {
+				break // keep the first deviating answer
+			}
+		}
+		where := ""
+		if pos >= 0 {
+			switch {
+			case pos < L/4:
+				where = ":first-quarter"
+			case pos >= L-L/4:
+				where = ":last-quarter"
+			default:
+				where = ":middle"
+			}
+		}
+		cls := "C24:bearer-size:len" + lenClass(L) + ":" + form + where
+		x.Note("token length %d, presented %s (position %d), sibling configured %v", L, form, pos, twoTokens)
+		switch {
+		case want == nil && err == nil:
+			x.Failf(cls+":accepted-unconfigured", "length-%d token: a presented token that is not byte-for-byte configured (%s, position %d) was accepted as %q", L, form, pos, got.Principal)
+		case want != nil && err != nil:
+			x.Failf(cls+":rejected-configured", "length-%d configured token rejected: %v", L, err)
+		case want != nil && got != want:
+			x.Failf(cls+":wrong-identity", "length-%d token (%s): identity %q, want %q", L, form, got.Principal, want.Principal)
+		}
+		if err != nil {
+			x.Outcome("reject")
+		} else {
+			x.Outcome("accept:%s", got.Principal)
+		}
+	})
+
 	// ---------------- XFCC grammar ----------------
 	nKinds := venum.QT(7, 13)
 	shapes := vfC24Shapes(venum.QT(3, 4))
